@@ -153,6 +153,12 @@ SCRIPTS = {
     "bidir_bulk": {"c": [W(0, 4000, True)], "s": [W(1, 4000, True)]},
     "uni_both": {"c": [W(2, 1500, True)], "s": [W(3, 1500, True)]},
     "key_update_mid": {"c": [W(0, 1500), {"op": "ku"}, W(0, 1500, True)], "s": [W(1, 300), {"op": "ku", "g": ("rx", 0, 1500)}, W(1, 300, True)]},
+    # three key updates, client / client / server, a round trip apart: a packet of an OLDER key phase that
+    # arrives late (duplicate, delay) falls between them and must leave no trace
+    "key_update_thrice": {"c": [W(0, 600), {"op": "ku", "g": ("rx", 1, 300)}, W(0, 600, g=("rx", 1, 300)),
+                                {"op": "ku", "g": ("rx", 1, 600)}, W(0, 300, True, g=("rx", 1, 600))],
+                          "s": [W(1, 300, g=("rx", 0, 600)), W(1, 300, g=("rx", 0, 1200)),
+                                {"op": "ku", "g": ("rx", 0, 1500)}, W(1, 300, True, g=("rx", 0, 1500))]},
     "reset_racing": {"c": [W(0, 2500), {"op": "reset", "sid": 0}, W(4, 100, True)]},
     "stop_sending": {"c": [W(0, 2500)], "s": [{"op": "stop", "sid": 0, "g": ("rx", 0, 1)}, W(1, 50, True)]},
     "cid_change_mid": {"c": [W(0, 1500), {"op": "cid"}, W(0, 1500, True)], "s": [{"op": "cid", "g": ("rx", 0, 1)}, W(0, 800, True)]},
